@@ -198,7 +198,7 @@ def main(argv=None):
         inst = h.instances.get(tier, h.instances.get("quick")) or []
         for i in range(len(inst)):
             jobs.append((a.prop, h.name, i, tier, seed, replay_dir))
-    results = _schedule(jobs, a.j, hard_s=(600 if tier == "quick" else 3600))
+    results = _schedule(jobs, a.j, hard_s=int(os.environ.get("VERIF_HARD_S", 0)) or (600 if tier == "quick" else 3600))
     from symx import report
 
     code = report.finish(a.prop, tier, seed, results, time.time() - t0, write=not (a.no_evidence or a.only))
